@@ -223,7 +223,20 @@ impl<K: Hash + Eq, V, FH: BuildHasher, RH: BuildHasher> SegmentedCache<K, V, FH,
 
     /// `put_protected` will force to put an entry in protected LRU
     pub fn put_protected(&mut self, k: K, v: V) -> PutResult<K, V> {
-        self.protected.put(k, v)
+        // a key lives in exactly one segment: if it currently is in the probationary
+        // segment, take it out first and report its old value
+        match self.probationary.remove(&k) {
+            Some(old) => match self.protected.put(k, v) {
+                PutResult::Put => PutResult::Update(old),
+                PutResult::Evicted { key, value } => PutResult::EvictedAndUpdate {
+                    evicted: (key, value),
+                    update: old,
+                },
+                // the key cannot be in both segments
+                other => other,
+            },
+            None => self.protected.put(k, v),
+        }
     }
 
     /// Returns the value corresponding to the least recently used item or `None` if the
